@@ -3,16 +3,7 @@
 open Model
 open Driver_common
 
-(* C17: "contains <id> <content hex> <needle hex>,<needle hex>,..."  ->
-        "<id> model=<bool> spec=<bool>" *)
-let run_contains toks =
-  match toks with
-  | [id; content; needles] ->
-    let c = bytes_of_hex content in
-    let nd = List.map bytes_of_hex (split_on ',' needles) in
-    Printf.printf "M %s %s\nS %s %s\n" id (bool_s (reader_contains_any c nd))
-      id (bool_s (contains_spec c nd))
-  | _ -> failwith "bad contains line"
+(* C17 "contains" lines: ocaml/drv_c17.ml *)
 
 (* "case <id> <stack>" ... item lines ... "end" *)
 let run_case_block id stackdesc (lines : string list) =
@@ -41,7 +32,6 @@ let run_fcase id content hspec (lines : string list) =
     Printf.printf "D %s %s\n" id (Fsdriver.n_to_string (fcase_digest c spec ops))
 
 let () =
-  Registry.register_line "contains" run_contains;
   Registry.register_block "case" (fun hd body -> match hd with
       | [id; stackdesc] -> run_case_block id stackdesc body | _ -> failwith "bad case header");
   Registry.register_block "fcase" (fun hd body -> match hd with
